@@ -450,7 +450,7 @@ def handler(c):
             write_csvs(d1, m['assets'])
             write_csvs(d2, m2['assets'])
             dead = set()
-            for _ in range(40):
+            for _ in range(12):
                 other = CSVDailyBarDataSource(d2, Equity, adjust_prices=m.get('adjust', True))
                 for t, _k in c.get('event_times', []):
                     for name in m2['assets']:
@@ -467,10 +467,37 @@ def handler(c):
                     reused, _ = run_session(c, shared_ds=([mine], BacktestDataHandler(universe, data_sources=[mine])))
                     break
                 del mine
+            else:
+                # second pattern: many sources of the other market alive at once (each asked a few of the session's questions),
+                # all dropped, then new sources kept alive until one of them is handed a freed address
+                evs = [t for t, _k in c.get('event_times', [])]
+                some = evs[:10] + evs[len(evs) // 2:len(evs) // 2 + 6]
+
+                def queried_other():
+                    o_ = CSVDailyBarDataSource(d2, Equity, adjust_prices=m.get('adjust', True))
+                    for t in some:
+                        for name in m2['assets']:
+                            try:
+                                o_.get_bid(ts(t), 'EQ:' + name)
+                                o_.get_ask(ts(t), 'EQ:' + name)
+                            except Exception:
+                                pass
+                    return o_
+                batch = [queried_other() for _ in range(70)]
+                dead |= set(id(o_) for o_ in batch)
+                del batch
+                keep_alive = []
+                for _ in range(90):
+                    mine = CSVDailyBarDataSource(d1, Equity, adjust_prices=m.get('adjust', True))
+                    if id(mine) in dead:
+                        reused, _ = run_session(c, shared_ds=([mine], BacktestDataHandler(universe, data_sources=[mine])))
+                        break
+                    keep_alive.append(mine)
+                del keep_alive
         finally:
             shutil.rmtree(d1, ignore_errors=True)
             shutil.rmtree(d2, ignore_errors=True)
-        return {'first': fresh, 'second': reused}
+        return {'first': fresh, 'second': reused, 'address_reused': reused is not fresh}
     if c.get('mode') == 'default_after_other':
         c_exp = dict(c)
         c_exp.pop('default_handler', None)
